@@ -335,9 +335,10 @@ fn check_builder(with_addr: bool, ops: &[Op], prop: &str) -> Option<Mismatch> {
     let len_aspect = ["C09", "any"].contains(&prop);
     let succeeds_aspect = ["C07", "C13", "any"].contains(&prop);
     // real_ok: what the real code did; enc_ok: the value is encodable (<= 65535 bytes) - otherwise it MUST be refused
-    let dv = |real_ok: bool, enc_ok: bool, what: String| -> Result<Option<(String, String)>, String> {
+    // in_domain: after this write at most 65535 bytes follow the fixed part (the headers C07 / C13 speak about)
+    let dv = |real_ok: bool, enc_ok: bool, in_domain: bool, what: String| -> Result<Option<(String, String)>, String> {
         if real_ok && !enc_ok && len_aspect { return Err(what + " (a value too large for its 16-bit length was accepted)"); }
-        if !real_ok && succeeds_aspect { return Err(what); }
+        if !real_ok && succeeds_aspect && in_domain { return Err(what + " was refused although the header still fits in 65535 bytes"); }
         Ok(None)
     };
     let addr = v2::Addresses::IPv4(v2::IPv4::new([1, 2, 3, 4], [5, 6, 7, 8], 80, 443));
@@ -350,18 +351,18 @@ fn check_builder(with_addr: bool, ops: &[Op], prop: &str) -> Option<Mismatch> {
             let res: std::io::Result<v2::Builder> = match op {
                 Op::Reserve(n) => { Ok(b.reserve_capacity(*n)) }
                 Op::SetLen(l) => { model.length = *l; Ok(b.set_length(*l)) }
-                Op::Bytes(n) => { let d = data(*n); let ok = model.write(if *n <= 65535 { Some(vec![d.clone()]) } else { None }); let r = b.write_payload(d.as_slice()); if r.is_ok() != ok { return dv(r.is_ok(), *n <= 65535, format!("write_payload([u8;{}]) ok={} expected ok={}", n, r.is_ok(), ok)); } r }
-                Op::U8(x) => { let ok = model.write(Some(vec![vec![*x]])); let r = b.write_payload(*x); if r.is_ok() != ok { return dv(r.is_ok(), true, "write_payload(u8)".into()); } r }
-                Op::U16(x) => { let ok = model.write(Some(vec![x.to_be_bytes().to_vec()])); let r = b.write_payload(*x); if r.is_ok() != ok { return dv(r.is_ok(), true, "write_payload(u16)".into()); } r }
-                Op::I32(x) => { let ok = model.write(Some(vec![x.to_be_bytes().to_vec()])); let r = b.write_payload(*x); if r.is_ok() != ok { return dv(r.is_ok(), true, "write_payload(i32)".into()); } r }
-                Op::U64(x) => { let ok = model.write(Some(vec![x.to_be_bytes().to_vec()])); let r = b.write_payload(*x); if r.is_ok() != ok { return dv(r.is_ok(), true, "write_payload(u64)".into()); } r }
-                Op::Tlv(k, n) => { let d = data(*n); let ok = model.write(tlv_chunks(*k, &d)); let r = b.write_tlv(*k, d.as_slice()); if r.is_ok() != ok { return dv(r.is_ok(), *n <= 65535, format!("write_tlv({}) ok={} expected {}", n, r.is_ok(), ok)); } r }
-                Op::Pair(k, n) => { let d = data(*n); let ok = model.write(tlv_chunks(*k, &d)); let r = b.write_payload((*k, d.as_slice())); if r.is_ok() != ok { return dv(r.is_ok(), *n <= 65535, format!("write_payload((kind, [u8;{}])) ok={} expected {}", n, r.is_ok(), ok)); } r }
-                Op::TypeSsl => { let ok = model.write(Some(vec![vec![0x20]])); let r = b.write_payload(v2::Type::SSL); if r.is_ok() != ok { return dv(r.is_ok(), true, format!("write_payload(Type::SSL) ok={} expected {}", r.is_ok(), ok)); } r }
+                Op::Bytes(n) => { let d = data(*n); let ok = model.write(if *n <= 65535 { Some(vec![d.clone()]) } else { None }); let r = b.write_payload(d.as_slice()); if r.is_ok() != ok { return dv(r.is_ok(), *n <= 65535, model.buf.as_ref().map_or(true, |b| b.len() <= 16 + 65535), format!("write_payload([u8;{}]) ok={} expected ok={}", n, r.is_ok(), ok)); } r }
+                Op::U8(x) => { let ok = model.write(Some(vec![vec![*x]])); let r = b.write_payload(*x); if r.is_ok() != ok { return dv(r.is_ok(), true, model.buf.as_ref().map_or(true, |b| b.len() <= 16 + 65535), "write_payload(u8)".into()); } r }
+                Op::U16(x) => { let ok = model.write(Some(vec![x.to_be_bytes().to_vec()])); let r = b.write_payload(*x); if r.is_ok() != ok { return dv(r.is_ok(), true, model.buf.as_ref().map_or(true, |b| b.len() <= 16 + 65535), "write_payload(u16)".into()); } r }
+                Op::I32(x) => { let ok = model.write(Some(vec![x.to_be_bytes().to_vec()])); let r = b.write_payload(*x); if r.is_ok() != ok { return dv(r.is_ok(), true, model.buf.as_ref().map_or(true, |b| b.len() <= 16 + 65535), "write_payload(i32)".into()); } r }
+                Op::U64(x) => { let ok = model.write(Some(vec![x.to_be_bytes().to_vec()])); let r = b.write_payload(*x); if r.is_ok() != ok { return dv(r.is_ok(), true, model.buf.as_ref().map_or(true, |b| b.len() <= 16 + 65535), "write_payload(u64)".into()); } r }
+                Op::Tlv(k, n) => { let d = data(*n); let ok = model.write(tlv_chunks(*k, &d)); let r = b.write_tlv(*k, d.as_slice()); if r.is_ok() != ok { return dv(r.is_ok(), *n <= 65535, model.buf.as_ref().map_or(true, |b| b.len() <= 16 + 65535), format!("write_tlv({}) ok={} expected {}", n, r.is_ok(), ok)); } r }
+                Op::Pair(k, n) => { let d = data(*n); let ok = model.write(tlv_chunks(*k, &d)); let r = b.write_payload((*k, d.as_slice())); if r.is_ok() != ok { return dv(r.is_ok(), *n <= 65535, model.buf.as_ref().map_or(true, |b| b.len() <= 16 + 65535), format!("write_payload((kind, [u8;{}])) ok={} expected {}", n, r.is_ok(), ok)); } r }
+                Op::TypeSsl => { let ok = model.write(Some(vec![vec![0x20]])); let r = b.write_payload(v2::Type::SSL); if r.is_ok() != ok { return dv(r.is_ok(), true, model.buf.as_ref().map_or(true, |b| b.len() <= 16 + 65535), format!("write_payload(Type::SSL) ok={} expected {}", r.is_ok(), ok)); } r }
                 Op::Batch(ns) => { let ds: Vec<Vec<u8>> = ns.iter().map(|n| data(*n)).collect(); let mut ok = model.start(); for d in &ds { ok = ok && model.write_started(Some(vec![d.clone()])); if !ok { break; } }
-                    let r = b.write_payloads(ds.iter().map(|d| d.as_slice())); if r.is_ok() != ok { return dv(r.is_ok(), true, "write_payloads".into()); } r }
-                Op::Section(n) => { let d = data(*n); let ok = model.write(Some(vec![d.clone()])); let r = b.write_payload(v2::TypeLengthValues::from(d.as_slice())); if r.is_ok() != ok { return dv(r.is_ok(), true, "write_payload(TLV section)".into()); } r }
-                Op::Addr4 => { let ok = model.write(Some(vec![vec![1, 2, 3, 4], vec![5, 6, 7, 8], vec![0, 80], vec![1, 187]])); let r = b.write_payload(addr); if r.is_ok() != ok { return dv(r.is_ok(), true, "write_payload(addresses)".into()); } r }
+                    let r = b.write_payloads(ds.iter().map(|d| d.as_slice())); if r.is_ok() != ok { return dv(r.is_ok(), true, model.buf.as_ref().map_or(true, |b| b.len() <= 16 + 65535), "write_payloads".into()); } r }
+                Op::Section(n) => { let d = data(*n); let ok = model.write(Some(vec![d.clone()])); let r = b.write_payload(v2::TypeLengthValues::from(d.as_slice())); if r.is_ok() != ok { return dv(r.is_ok(), true, model.buf.as_ref().map_or(true, |b| b.len() <= 16 + 65535), "write_payload(TLV section)".into()); } r }
+                Op::Addr4 => { let ok = model.write(Some(vec![vec![1, 2, 3, 4], vec![5, 6, 7, 8], vec![0, 80], vec![1, 187]])); let r = b.write_payload(addr); if r.is_ok() != ok { return dv(r.is_ok(), true, model.buf.as_ref().map_or(true, |b| b.len() <= 16 + 65535), "write_payload(addresses)".into()); } r }
             };
             match res { Ok(nb) => b = nb, Err(_) => return Ok(None) }   // a failed write ends the history (agreed with the model above)
         }
